@@ -194,10 +194,21 @@ fn run(case: &HashMap<String, String>) -> String {
             if entry == "txt_chunk" {
                 let text = std::str::from_utf8(&bytes).unwrap();
                 match crate::rdata::TXT::try_from(text) {
-                    Ok(t) => match String::try_from(t) {
-                        Ok(back) => if back != text { fails.push("lossy"); },
-                        Err(_) => fails.push("join"),
-                    },
+                    Ok(t) => {
+                        let mut out = Vec::new();
+                        if t.write_to(&mut out).is_err() || t.len() != out.len() { fails.push("wire-len"); }
+                        let rr = ResourceRecord::new(Name::new_unchecked("a"), crate::CLASS::IN, 1, crate::rdata::RData::TXT(t.clone()));
+                        let mut pk = Packet::new_reply(1);
+                        pk.answers.push(rr);
+                        match pk.build_bytes_vec().map(|b| Packet::parse(&b).map(|p| p.answers.len())) {
+                            Ok(Ok(1)) => {}
+                            _ => fails.push("wire-parse"),
+                        }
+                        match String::try_from(t) {
+                            Ok(back) => if back != text { fails.push("lossy"); },
+                            Err(_) => fails.push("join"),
+                        }
+                    }
                     Err(_) => fails.push("reject"),
                 }
             } else if entry == "txt_long" {
